@@ -10,7 +10,7 @@ C02 and C10 theorems are about.
     servers | weights | next | adv <ns>
     serve [cookie=<scheme>,<host>,<path|->] [mutate=host|path|scheme]
     rate <scheme> <host> <path|-> <num>/<den>        ready <scheme> <host> <path|-> 0|1
-    race <pairs> <reqs>
+    race <pairs> <reqs>          serve-remove <scheme> <host> <path|->
 -/
 open RB PoolM RR
 
@@ -76,6 +76,12 @@ def step (s : Sys) (f : List String) : Sys × String :=
     match ns.toNat? with
     | some ns => doOp s (.adv ns)
     | none => (s, "bad-op")
+  | ["serve-remove", sc, h, p] =>
+    -- a request and a `RemoveServer` issued while the request's adjustment is applying weights: the
+    -- calls are atomic, the adjustment belongs to the request, so the outcome is "request, then removal"
+    let r1 := doOp s (.serve none none)
+    let r2 := doOp r1.1 (.remove (mkURL [] sc h p))
+    (r2.1, r1.2 ++ " ; " ++ r2.2)
   | ["race", a, b] =>
     -- administration calls racing with requests: whatever the interleaving of the (atomic) calls, the
     -- harness ends with a sequential add + remove of the reserved server, which determines the state
